@@ -106,6 +106,14 @@ def main():
     src = progen.random_program(a.seed * 1000003 + i, size=size, avoid=avoid)
     items.append((idx, src, opts[idx % len(opts)], 6))
     idx += 1
+  # an extra block of random programs whose if / else / try bodies and handlers may END in an unconditional return
+  # (branches that "definitely return": the return-lowering pass reorders the statements that follow them)
+  ndef = nrand // 3
+  for i in range(ndef):
+    size = 2 + (i % 4)
+    src = progen.random_program(a.seed * 7000003 + i, size=size, avoid=avoid, features=('defret',))
+    items.append((idx, src, opts[idx % len(opts)], 6))
+    idx += 1
   programs = runs = nontrivial = 0
   failures, samples = [], []
   seen = set()
@@ -122,7 +130,7 @@ def main():
       failures.append(f)
     if len(samples) < 2 and r['nontrivial'] and r['idx'] >= nskel:
       samples.append(items[r['idx']][1][-600:])
-  harness.emit(dict(evaluated=runs, programs=programs, skeleton_programs=nskel, random_programs=nrand,
+  harness.emit(dict(evaluated=runs, programs=programs, skeleton_programs=nskel, random_programs=nrand, definitely_returning_programs=ndef,
                     distinct_nontrivial=nontrivial, K=K, options=opts, avoid=list(avoid),
                     failures=failures, samples=samples))
 
